@@ -361,8 +361,9 @@ func runC37(c *fw.Ctx) {
 		fullK[3] = 4
 		npat = map[int]int{4: 8, 5: 1}
 	}
-	c.Bound("tree_assignments", fmt.Sprintf("every assignment over the first k menu trees for n->k in %v; beyond that the first p of the fixed patterns {reverted directory with an unchanged child, alternating/reverted, all different, constant, palindrome with moved subtree, deep subtree + gitlink, mixed, directory->file->empty tree->back}; for n<=3 additionally every assignment over {T0, T7 (d is a file), T8 (empty tree)} for n->p in %v; at 5 commits the single mixed pattern T0 T1 T0 T3 T1 (revert, moved subtree, repeat)", fullK, npat))
+	c.Bound("tree_assignments", fmt.Sprintf("every assignment over the first k menu trees for n->k in %v; beyond that the first p of the fixed patterns {reverted directory with an unchanged child, alternating/reverted, all different, constant, palindrome with moved subtree, deep subtree + gitlink, mixed, directory->file->empty tree->back}; additionally for n<=2 every assignment over {T0, T7 (d is a file), T8 (empty tree)} and for n=3 the seven patterns 0 7 0, 7 0 7, 0 8 0, 8 0 8, 0 7 8, 8 7 0, 7 8 7 for n->p in %v; at 5 commits the single mixed pattern T0 T1 T0 T3 T1 (revert, moved subtree, repeat)", fullK, npat))
 	c.Bound("wants_haves", "n<=4: wants every 1- and 2-subset of commits x haves {none, each commit, each pair, commit+missing (every commit for n<=3, c0 at n=4), tag on commit (every / last), missing only, tag->tree, tag->blob, raw tree, raw blob, tag->tag}; wants {tag on each commit, tag->tree, tag->blob, tag->tag->commit, tag->tree + tip, raw tree, raw blob} x haves {none, each commit}; n=5: wants each commit x haves {each commit, each pair}")
+	c.Bound("entry_points", "revlist.Objects on every query; revlist.ObjectsWithRef (keys = selected objects; an object listed under a want must be reachable from it) on every query of the instances with at most 2 commits")
 	c.Bound("conformance_max_commits", confN)
 	c.SetRule("every DAG x weak order x tree assignment x want/have query; revlist.Objects on a memory store holding the raw objects; verdict: reach(wants)\\reach(haves) subset of result subset of reach(wants) under an object-level reachability model; the model's reach sets are replayed against `git rev-list --objects <start>` for every distinct start of the complete space up to conformance_max_commits, and git's own `rev-list --objects wants --not haves` is checked to lie between the same bounds with exactly the model's commits; non-trivial = at least one have present in the store; distinct counts (result vs bounds: exact-lower / between / exact-upper, want kind, have kind, timestamp shape) classes")
 	c.Assume("non-shallow store; gitlink targets are never sent; a missing have is ignored (git upload-pack semantics); git 2.39.5 rev-list is the reference for reach sets")
@@ -384,7 +385,7 @@ func runC37(c *fw.Ctx) {
 				as = [][]int{{0, 1, 0, 3, 1}}
 			}
 		}
-		if n <= 3 {
+		if n <= 2 {
 			// every assignment over {T0, T7, T8}: file<->directory, the empty tree
 			for _, a := range c37Assignments(n, 3, true) {
 				b := make([]int, n)
@@ -397,6 +398,8 @@ func runC37(c *fw.Ctx) {
 					as = append(as, b)
 				}
 			}
+		} else if n == 3 {
+			as = append(as, []int{0, 7, 0}, []int{7, 0, 7}, []int{0, 8, 0}, []int{8, 0, 8}, []int{0, 7, 8}, []int{8, 7, 0}, []int{7, 8, 7})
 		}
 		for _, a := range as {
 			jobs = append(jobs, job{idx, a})
@@ -434,7 +437,7 @@ func c37Hashes(ids []string) []plumbing.Hash {
 }
 
 func c37Run(c *fw.Ctx, cs *c37Case, j int, fails *eFailSet, lite bool) {
-	c37RunQ(c, cs, j, fails, cs.queries(lite), cs.in.N <= 3, "")
+	c37RunQ(c, cs, j, fails, cs.queries(lite), cs.in.N <= 2, "")
 }
 
 // c37RunQ runs the queries on a fresh memory store. withRef: also through
